@@ -207,6 +207,61 @@ def selftest(prop):
                 out["missed"].append(m["id"])
             out["results"].append({"id": m["id"], "desc": m["desc"], "expected_rule": m["expect"], "reported_rules": rules,
                                    "exit": r.returncode, "status": "detected" if hit else "missed"})
+        # the two corpora written by independent sub-agents (DESIGN.md 11.7 / 11.8): confirmed breaking changes of this
+        # property must be reported by this pack, behaviour-preserving refactorings of its mechanism and the catalogue's
+        # neutral edits must leave it silent
+        import json as _json
+        import re as _re
+        out["seeded"] = {"applied": 0, "detected": 0, "missed": [], "not_applicable": 0}
+        out["neutral"] = {"applied": 0, "silent": 0, "false_alarms": [], "not_applicable": 0}
+
+        def run_on(repo):
+            env = dict(os.environ, VERIF_REPO=repo, VERIF_EVIDENCE_DIR=os.path.join(repo, ".evidence"), VERIF_TIER="quick", VERIF_NO_SELFTEST="1")
+            r = subprocess.run([os.path.join(VERIF, "check"), prop, "--tier", "quick"], env=env, capture_output=True, text=True)
+            return r.returncode, sorted(set(_re.findall(r"^  rule (\S+) @", r.stdout, _re.M)))
+        jobs = []
+        sd = os.path.join(VERIF, "seeded")
+        for i in sorted(os.listdir(sd)) if os.path.isdir(sd) else []:
+            mp = os.path.join(sd, i, "meta.json")
+            if os.path.exists(mp) and _json.load(open(mp)).get("breaks_property") == prop:
+                jobs.append(("seeded", i, os.path.join(sd, i, "patch.diff")))
+        nd = os.path.join(VERIF, "neutral")
+        for i in sorted(os.listdir(nd)) if os.path.isdir(nd) else []:
+            if i.startswith(prop) and os.path.exists(os.path.join(nd, i, "patch.diff")):
+                jobs.append(("neutral", i, os.path.join(nd, i, "patch.diff")))
+        for kind, i, patch in jobs:
+            repo = os.path.join(scratch, "repo")
+            mrun.copy_repo(repo)
+            a = subprocess.run(["patch", "-p1", "-s", "-i", patch], cwd=repo, capture_output=True, text=True)
+            if a.returncode != 0:
+                out[kind]["not_applicable"] += 1
+                continue
+            out[kind]["applied"] += 1
+            rc, rules = run_on(repo)
+            if kind == "seeded":
+                if rc == 1:
+                    out[kind]["detected"] += 1
+                else:
+                    out[kind]["missed"].append(i)
+            else:
+                if rc == 0:
+                    out[kind]["silent"] += 1
+                else:
+                    out[kind]["false_alarms"].append({"id": i, "rules": rules})
+        for m in MUTATIONS:
+            if m["property"] != prop or m["expect"] != "none":
+                continue
+            repo = os.path.join(scratch, "repo")
+            mrun.copy_repo(repo)
+            if mrun.apply(repo, m):
+                out["neutral"]["not_applicable"] += 1
+                continue
+            out["neutral"]["applied"] += 1
+            rc, rules = run_on(repo)
+            if rc == 0:
+                out["neutral"]["silent"] += 1
+            else:
+                out["neutral"]["false_alarms"].append({"id": m["id"], "rules": rules})
     finally:
         shutil.rmtree(scratch, ignore_errors=True)
     return out
